@@ -2,7 +2,7 @@
    conditions hold of the code's own struct types, and the hypotheses are satisfiable by non-trivial values. *)
 From Coq Require Import List NArith ZArith Lia Bool Arith.
 From TarsV Require Import Gen.Consts Base.Hex Codec.Wire Codec.Skip Codec.Prim Codec.GenCodec Codec.Corr
-  Codec.RoundTrip Codec.RoundTripProofs Codec.TotalProofs Gen.Schemas.
+  Codec.RoundTrip Codec.RoundTripProofs Codec.TotalProofs Codec.PrefixProofs Gen.Schemas.
 Import ListNotations.
 Open Scope N_scope.
 
@@ -112,4 +112,35 @@ Qed.
 Example env0_safe_types :
   filter (fun sid => safe_ty 8 env0 (TStruct sid)) (seq 0 (length env0))
   = [0; 1; 2; 3; 4; 5; 6; 8; 9; 10; 11; 12; 13; 14; 15; 17; 20; 21; 22; 23; 27]%nat.
+Proof. vm_compute. reflexivity. Qed.
+
+(* C06 on the code's schemas: the prefix theorem for every generated struct type all of whose members are scalar *)
+Definition flat_b (fds : schema) : bool := forallb (fun fd => scalar_ty (fty fd)) fds.
+Lemma flat_b_sound fds : flat_b fds = true -> flat fds.
+Proof. unfold flat_b, flat. rewrite forallb_forall. intros H. apply Forall_forall. exact H. Qed.
+Lemma env0_members_bound sid : (length (fields_of env0 sid) + 4 <= 64)%nat.
+Proof.
+  destruct (Nat.ltb sid (length env0)) eqn:E.
+  - apply Nat.ltb_lt in E.
+    assert (H : forallb (fun s => (length (fields_of env0 s) + 4 <=? 64)%nat) (seq 0 (length env0)) = true) by (vm_compute; reflexivity).
+    rewrite forallb_forall in H. apply Nat.leb_le. apply H. apply in_seq. lia.
+  - apply Nat.ltb_ge in E. unfold fields_of. rewrite nth_overflow by assumption. cbn [length]. lia.
+Qed.
+Theorem env0_prefix_flat : forall sid vs p q, flat_b (fields_of env0 sid) = true ->
+  has_type env0 (TStruct sid) (VStruct vs) -> encode env0 sid (VStruct vs) = p ++ q ->
+  decode env0 sid p = DErr \/
+  exists i h ps, (i <= length (fields_of env0 sid))%nat /\
+    p = enc_fields env0 (firstn i vs) (firstn i (fields_of env0 sid)) ++ h /\ (h = [] \/ halfhead h) /\
+    optional (skipn i (fields_of env0 sid)) /\
+    Forall2 (fun fd p => prior_ok env0 (fty fd) (fdef fd) p) (fields_of env0 sid) ps /\
+    decode env0 sid p = DOk (VStruct (firstn i (norm_fields env0 vs (fields_of env0 sid)) ++ skipn i ps)) [].
+Proof.
+  intros sid vs p q Hfl Hty HE. apply (prefix_flat env0 2 sid vs p q); try assumption.
+  - apply env0_wf_schema.
+  - lia.
+  - now apply flat_b_sound.
+  - apply env0_members_bound.
+Qed.
+Example env0_flat_types :
+  filter (fun sid => flat_b (fields_of env0 sid)) (seq 0 (length env0)) = [3; 4; 6; 9; 10; 11; 12; 13; 14; 15; 17; 20; 22; 23; 27]%nat.
 Proof. vm_compute. reflexivity. Qed.
